@@ -513,7 +513,10 @@ def gen_backend(rng, variant, nops, mmax):
 def short_alphabet(variant):
     circuits = {"A": {"m": 2, "comps": [["BS", 0, 1.1, 0.4], ["PS", 0, 0.3]]},
                 "B": {"m": 2, "comps": [["BS", 0, 2.3, 1.4], ["PS", 1, 1.3], ["BS", 0, 0.9, 0.2]]},
-                "C": {"m": 3, "comps": [["BS", 0, 1.3, 0.4], ["BS", 1, 0.7, 2.0], ["PS", 0, 0.3]]}}
+                "C": {"m": 3, "comps": [["BS", 0, 1.3, 0.4], ["BS", 1, 0.7, 2.0], ["PS", 0, 0.3]]},
+                # 4 modes: the smallest size where the default MPS bond dimension truncates (directed histories)
+                "D": {"m": 4, "comps": [["BS", 0, 1.3, 0.4], ["BS", 2, 0.7, 2.0], ["BS", 1, 1.9, 1.1], ["PS", 0, 0.3],
+                                        ["BS", 0, 2.2, 0.5], ["BS", 2, 1.1, 0.2], ["BS", 1, 0.8, 2.4]]}}
     alpha = [["circ", "A"], ["circ", "B"], ["circ", "C"], ["in", [1, 1]], ["in", [1, 0]], ["in", [1, 1, 0]],
              ["mask", ["1 "], None], ["mask", [" 1"], 2], ["clear"], ["q", "dist"]]
     if variant == "MPS":
@@ -1463,6 +1466,14 @@ for _v in BACKENDS:
                          "ops": _ops})
 
 
+for _ops in ([["circ", "D"], ["in", [1, 1, 1, 0]], ["q", "dist"], ["in", [1, 1, 0, 0]], ["q", "dist"]],
+             [["cutoff", 2], ["circ", "D"], ["in", [1, 1, 1, 0]], ["q", "dist"], ["in", [1, 1, 0, 0]], ["q", "evolve"]],
+             [["circ", "D"], ["in", [1, 1, 0, 0]], ["q", "dist"], ["cutoff", 5], ["q", "dist"], ["cutoff", 2],
+              ["q", "allprob"]]):
+    DIRECTED.append({"family": "backend", "variant": "MPS", "params": {}, "circuits": short_alphabet("MPS")[0],
+                     "ops": _ops})
+
+
 def run(chk: core.Check):
     chk.rule = ("distinct (family, engine, sequence of operation kinds) histories containing at least one "
                 "configuration change after a first query and a later query")
@@ -1497,7 +1508,7 @@ def run(chk: core.Check):
     nops = chk.pick(25, 80)
     for v in BACKENDS:
         hs = [gen_backend(random.Random(seed_rng.getrandbits(64)), v, random.Random(seed_rng.getrandbits(32)).randint(8, nops),
-                          chk.pick(3, 4)) for _ in range(nrand)]
+                          4 if v == "MPS" else chk.pick(3, 4)) for _ in range(nrand)]
         for k in range(4):
             jobs.append((f"random:backend:{v}", hs[k::4]))
     nsim = chk.pick(14, 110)
